@@ -285,12 +285,18 @@ func (c *ctx) runEngine(e *Engine, onlyCase int) *engineResult {
 
 // widen returns the instrumentation list extended by every non-test .go file of the directories it names.
 func widen(instr []string, skip []string) []string {
-	out := append([]string(nil), instr...)
+	out := []string{}
+	for _, f := range instr {
+		if !strings.Contains(f, "+") && !contains(skip, filepath.Dir(f)) {
+			f += "+sync"
+		}
+		out = append(out, f)
+	}
 	have := map[string]bool{}
 	dirs := []string{}
 	seenDir := map[string]bool{}
 	for _, f := range instr {
-		f = strings.TrimSuffix(f, "+sync")
+		f = strings.TrimSuffix(strings.TrimSuffix(f, "+sync"), "+lockonly")
 		have[f] = true
 		if d := filepath.Dir(f); !seenDir[d] && !contains(skip, d) {
 			seenDir[d] = true
@@ -309,7 +315,7 @@ func widen(instr []string, skip []string) []string {
 			}
 			if f := filepath.Join(d, n); !have[f] {
 				have[f] = true
-				out = append(out, f)
+				out = append(out, f+"+sync") // (lock acquisitions too: the moved code may have traded its atomics for a mutex)
 			}
 		}
 	}
